@@ -177,7 +177,7 @@ fn initial_residuals_exact<N, F, G, const V: usize>(
     mut jacobian: G,
     jac: &mut DMatrix<N>,
     jac_transpose: &mut DMatrix<N>,
-    mut params: SVector<N, V>,
+    params: &mut SVector<N, V>,
 ) -> Result<(N::RealField, DVector<N>), String>
 where
     N: ComplexField + Copy + FromPrimitive,
@@ -188,7 +188,7 @@ where
     // Get the initial sum of square residuals
     let mut resid = Vec::with_capacity(xs.len());
     for (ind, &x) in xs.iter().enumerate() {
-        resid.push(ys[ind] - f(x, &params));
+        resid.push(ys[ind] - f(x, params));
     }
     let sum_sq_initial: N::RealField = resid
         .iter()
@@ -200,7 +200,7 @@ where
     let mut damping_tmp = *damping / damping_mult;
     let mut j = 0;
     let mut evaluation: DVector<N> =
-        DVector::from_iterator(xs.len(), xs.iter().map(|&x| f(x, &params)));
+        DVector::from_iterator(xs.len(), xs.iter().map(|&x| f(x, params)));
     while sum_sq > sum_sq_initial && j < 1000 {
         damping_tmp *= damping_mult;
         let diff = ys - &evaluation;
@@ -223,15 +223,15 @@ where
                 }
             }
         }
-        params += &b;
-        evaluation = DVector::from_iterator(xs.len(), xs.iter().map(|&x| f(x, &params)));
+        *params += &b;
+        evaluation = DVector::from_iterator(xs.len(), xs.iter().map(|&x| f(x, params)));
         let diff = ys - &evaluation;
         sum_sq = diff
             .iter()
             .map(|&r| r.modulus_squared())
             .fold(N::RealField::zero(), |acc, r| acc + r);
         j += 1;
-        jac_analytic(&mut jacobian, xs, &mut params, jac);
+        jac_analytic(&mut jacobian, xs, params, jac);
         *jac_transpose = jac.transpose();
     }
     if j != 1000 {
@@ -449,7 +449,7 @@ where
         &mut jacobian,
         &mut jac,
         &mut jac_transpose,
-        params,
+        &mut params,
     )?;
 
     let mut last_sum_sq = sum_sq;
